@@ -6,7 +6,7 @@
 From Coq Require Import ZArith List Bool.
 From Coq Require String.
 From FV Require Import Base.Bytes Model.Audit Proofs.AuditSpec Proofs.AuditProofs Proofs.AuditCompat
-     Proofs.AuditCorollaries.
+     Proofs.AuditCorollaries Proofs.AuditFuel.
 Import ListNotations.
 Open Scope Z_scope.
 
@@ -20,6 +20,16 @@ Theorem c18_fails_iff_breaking : forall fuel po pn,
   (audit_fails fuel po pn = true <-> Breaking po pn).
 Proof. exact (fun fuel po pn => audit_fails_iff_breaking po pn fuel). Qed.
 Print Assumptions c18_fails_iff_breaking.
+
+(** The same without the fuel caveat: when every type expression of both programs has a normal
+    form ([Normalizing]: typedefs acyclic), every fuel large enough makes the model converge, and
+    the verdict is the catalogue's. *)
+Theorem c18_fails_iff_breaking_acyclic : forall po pn,
+  Normalizing po -> Normalizing pn ->
+  exists f0, forall f, (f0 <= f)%nat ->
+    converged (audit f po pn) = true /\ (audit_fails f po pn = true <-> Breaking po pn).
+Proof. exact audit_fails_iff_breaking_normalizing. Qed.
+Print Assumptions c18_fails_iff_breaking_acyclic.
 
 (** The scope-prefix rule of the model (normalise, then compare strings) is the declarative one:
     same dot-separated pieces up to the names inside braces. *)
@@ -37,25 +47,26 @@ Print Assumptions c18_normal_form_unique.
 (** Identical programs pass.  Needs: declarations of one kind have distinct names (a repeated
     struct name with different bodies fails its own audit — the parser does not reject it), and
     acyclic typedefs. *)
-Theorem c18_identity_passes : forall fuel p,
+Theorem c18_identity_passes : forall p,
   WfNames p -> Normalizing p ->
-  converged (audit fuel p p) = true -> audit_fails fuel p p = false.
-Proof. exact (fun fuel p Hw Hn => renamed_passes fuel p p (Renamed_refl p) Hw Hn). Qed.
+  exists f0, forall f, (f0 <= f)%nat -> converged (audit f p p) = true /\ audit_fails f p p = false.
+Proof. exact (fun p => renamed_passes_eventually p p (Renamed_refl p)). Qed.
 Print Assumptions c18_identity_passes.
 
 (** The documented compatible edits pass, applied anywhere and all at once: every field, argument
     and exception rewritten by any [g] that keeps id, modifier and type (renames, default values);
     every enum variant renamed; every scope prefix replaced by one that differs only in variable
     names; namespaces and constants replaced by anything. *)
-Theorem c18_compatible_edits_pass : forall fuel p g h hp ns cs,
+Theorem c18_compatible_edits_pass : forall p g h hp ns cs,
   (forall f, field_eq f (g f)) ->
   (forall s, PrefixEquiv (sc_prefix s) (hp s)) ->
   WfNames p -> Normalizing p ->
-  converged (audit fuel p (cosmetic g h hp ns cs p)) = true ->
-  audit_fails fuel p (cosmetic g h hp ns cs p) = false.
+  exists f0, forall f, (f0 <= f)%nat ->
+    converged (audit f p (cosmetic g h hp ns cs p)) = true
+    /\ audit_fails f p (cosmetic g h hp ns cs p) = false.
 Proof.
-  exact (fun fuel p g h hp ns cs Hg Hp Hw Hn =>
-           renamed_passes fuel p _ (cosmetic_renamed g h hp ns cs p Hg Hp) Hw Hn).
+  exact (fun p g h hp ns cs Hg Hp =>
+           renamed_passes_eventually p _ (cosmetic_renamed g h hp ns cs p Hg Hp)).
 Qed.
 Print Assumptions c18_compatible_edits_pass.
 
@@ -68,15 +79,16 @@ Print Assumptions c18_prefix_variable_rename.
 
 (** A non-required field with a fresh id added at any position of a struct, exception or union
     passes. *)
-Theorem c18_added_optional_field_passes : forall fuel p k sname pos f,
+Theorem c18_added_optional_field_passes : forall p k sname pos f,
   f_mod f <> Required ->
   (forall s, In s (structs_of k p) -> s_name s = sname -> ~ In (f_id f) (map f_id (s_fields s))) ->
   WfNames p -> Normalizing p ->
-  converged (audit fuel p (insert_field k sname pos f p)) = true ->
-  audit_fails fuel p (insert_field k sname pos f p) = false.
+  exists f0, forall fuel, (f0 <= fuel)%nat ->
+    converged (audit fuel p (insert_field k sname pos f p)) = true
+    /\ audit_fails fuel p (insert_field k sname pos f p) = false.
 Proof.
-  exact (fun fuel p k sname pos f Hm Hf Hw Hn =>
-           renamed_passes fuel p _ (insert_field_renamed k sname pos f p Hm Hf) Hw Hn).
+  exact (fun p k sname pos f Hm Hf =>
+           renamed_passes_eventually p _ (insert_field_renamed k sname pos f p Hm Hf)).
 Qed.
 Print Assumptions c18_added_optional_field_passes.
 
